@@ -419,7 +419,32 @@ class Emitter:
 
     CMP = {"==": "=?", "<": "<?", "<=": "<=?"}
 
+    def fold_literal(self, e):
+        """value of an expression built from unsuffixed integer literals only (rustc evaluates it at
+        compile time, at the type inferred from the context), else None"""
+        if e.kind == "paren":
+            return self.fold_literal(e.e)
+        if e.kind == "int":
+            return e.val if not e.suffix else None
+        if e.kind == "binary" and e.op in ("+", "-", "*", "<<"):
+            a, b = self.fold_literal(e.l), self.fold_literal(e.r)
+            if a is None or b is None:
+                return None
+            v = {"+": a + b, "-": a - b, "*": a * b, "<<": a << b if 0 <= b < 31 else -1}[e.op]
+            # a constant that overflows is rejected by rustc (deny(arithmetic_overflow)); the narrowest
+            # type it may adopt here is checked by the consumer (lit adopts the other operand's type)
+            if not 0 <= v < 2 ** 31:
+                raise EmitError("constant expression out of range")
+            return v
+        return None
+
     def e_binary(self, e, env, k):
+        if self.v.get("fold_literals") and e.op not in ("&&", "||"):
+            fl, fr = self.fold_literal(e.l), self.fold_literal(e.r)
+            if (fl is not None and e.l.kind != "int") or (fr is not None and e.r.kind != "int"):
+                e = N("binary", op=e.op,
+                      l=N("int", val=fl, suffix=None) if fl is not None else e.l,
+                      r=N("int", val=fr, suffix=None) if fr is not None else e.r)
         op = e.op
         if op in ("&&", "||"):
             def k1(a, aty, env1):
@@ -855,12 +880,27 @@ class Emitter:
         if k == "ppath":
             return True
         if k == "ptstruct":
+            if self.enum_payload(p) is not None:
+                return all(self.pat_is_ctor_like(x, UNKNOWN) for x in p.elems)
             return p.segs[-1] in ("Some", "Ok", "Err") and all(self.pat_is_ctor_like(x, UNKNOWN) for x in p.elems)
         if k == "ptuple":
             return all(self.pat_is_ctor_like(x, UNKNOWN) for x in p.elems)
         if k == "por":
             return all(self.pat_is_ctor_like(x, ty) for x in p.alts)
         return False
+
+    def enum_payload(self, p):
+        """(constructor, payload types) when the tuple-struct pattern `p` names a variant with payload of a
+        vocabulary enum (optional key `payload: {variant: [types]}`), else None"""
+        if len(p.segs) < 2:
+            return None
+        en = self.v.get("enums", {}).get(p.segs[-2])
+        if en is None or p.segs[-1] not in en.get("payload", {}) or p.segs[-1] not in en["variants"]:
+            return None
+        tys = en["payload"][p.segs[-1]]
+        if len(tys) != len(p.elems):
+            raise EmitError("pattern %s: %d fields, the vocabulary models %d" % ("::".join(p.segs), len(p.elems), len(tys)))
+        return en["variants"][p.segs[-1]], tys
 
     def coq_pattern(self, p, ty, binds):
         """native Gallina pattern; binds collects (rust name, coq name, type)"""
@@ -884,6 +924,9 @@ class Emitter:
                 raise EmitError("pattern path %s" % "::".join(p.segs))
             return en["variants"][name]
         if k == "ptstruct":
+            ep = self.enum_payload(p)
+            if ep is not None:
+                return "(%s %s)" % (ep[0], " ".join(self.coq_pattern(x, t, binds) for x, t in zip(p.elems, ep[1])))
             name = p.segs[-1]
             inner = ty[1] if ty[0] == "opt" else UNKNOWN
             return "(%s %s)" % (name, " ".join(self.coq_pattern(x, inner, binds) for x in p.elems))
@@ -955,6 +998,8 @@ class Emitter:
                 else:
                     if not self.pat_is_ctor_like(pp, tys[0]) or (is_int(tys[0]) and pp.kind == "ppath"):
                         native = False
+            if any(t[0] == "enum" and self.v["enums"][t[1]].get("native", True) is False for t in tys):
+                native = False
             if native and not all(is_int(t) for t in tys):
                 def build(kk):
                     out = ["match %s with" % ", ".join(terms)]
